@@ -587,6 +587,22 @@ func Run(prog *ssa.Program, inMod func(*ssa.Function) bool) *Result {
 			}
 		}
 	}
+	// a synthetic wrapper (bound method value, thunk, interface method wrapper) calling a module function stands
+	// for unknown callers of that function
+	for f := range ssautil.AllFunctions(prog) {
+		if f.Synthetic == "" || f.Blocks == nil || (f.Name() == "init" && f.Pkg != nil) {
+			continue
+		}
+		for _, b := range f.Blocks {
+			for _, in := range b.Instrs {
+				if ci, ok := in.(ssa.CallInstruction); ok {
+					if g := ci.Common().StaticCallee(); g != nil {
+						e.valueUse[g] = true
+					}
+				}
+			}
+		}
+	}
 	e.initSummaries(fs)
 	// greatest fixpoint: candidates are only ever dropped, so this terminates; every survivor was
 	// re-proved in the last round under exactly the surviving set
